@@ -115,8 +115,13 @@ class H(Hooks):
         if isinstance(recv, tuple) and recv[0] == "struct" and recv[1] == "LiftContext":
             if not hasattr(self, "names"):
                 self.names = {v[1]: k for k, v in recv[2].items() if isinstance(v, tuple) and v[0] == "storage"}
-            a = args[0] if args else None
-            n = a[1] if isinstance(a, tuple) and a[0] == "ainst" else None
+            # which abstract instruction the call is about: the instruction itself, or (a helper taking its parts) its result type / id
+            n = None
+            for a in args:
+                if isinstance(a, tuple) and a and a[0] == "some" and len(a) == 2:
+                    a = a[1]
+                if isinstance(a, tuple) and len(a) >= 2 and a[0] in ("ainst", "rt", "id") and n is None:
+                    n = a[1]
             if m in ("lift_type", "lift_constant") and n in DEPS and ((m == "lift_type") == n.startswith("T")):
                 for st, dep in DEPS[n]:
                     if not any(ev_[0] == "append_id" and ev_[1] == st and ev_[2] == ("id", dep) for ev_ in self.events):
@@ -171,6 +176,7 @@ class H(Hooks):
 def convert(ctx):
     f = ctx.rspirv.fn(LIFT, "convert", "LiftContext", False)
     h = H(ctx)
+    h.self_ty = "LiftContext"
     ev = SymEval(h, "LiftContext::convert")
     try:
         r = ev.run(f, {f["sig"]["params"][0][0]: ("amodule",)})
